@@ -170,6 +170,9 @@ func appendedField(ins ssa.Instruction) (*ssa.Alloc, string, bool) {
 	return al, fieldName(fa.X.Type(), fa.Field), true
 }
 
+// lists of one state that are NOT index-paired (reviewed; "a~b" in name order) — none on this tree
+var independentLists = map[string]bool{}
+
 var ruleAnnA5 = &Rule{
 	Name:    "ANN/A5-parallel-lists",
 	NeedSSA: true,
@@ -261,6 +264,81 @@ var ruleAnnA5 = &Rule{
 						}
 					}
 					must[k] = ok
+				}
+				// pairwise lockstep: two lists of the same state that are both appended only on SOME paths must be appended on
+				// the SAME paths (round 8: a line number recorded for a line whose state is then discarded)
+				for i := 0; i < len(keys); i++ {
+					for j := i + 1; j < len(keys); j++ {
+						k1, k2 := keys[i], keys[j]
+						if k1.al != k2.al || must[k1] || must[k2] {
+							continue // the every-path rule below speaks about these
+						}
+						// forward may-analysis over the body: set of (appended1, appended2) states, as a 4-bit mask
+						st := map[*ssa.BasicBlock]uint8{}
+						for changed := true; changed; {
+							changed = false
+							for b := range body {
+								var in uint8
+								if b == h {
+									in = 1 // (false,false)
+								} else {
+									for _, p := range b.Preds {
+										if body[p] {
+											in |= st[p]
+										}
+									}
+								}
+								o := in
+								for _, ins := range b.Instrs {
+									al, name, ok := appendedField(ins)
+									if !ok || al != k1.al {
+										continue
+									}
+									var nx uint8
+									for bit := uint8(0); bit < 4; bit++ {
+										if o&(1<<bit) == 0 {
+											continue
+										}
+										a1, a2 := bit&1 != 0, bit&2 != 0
+										if name == k1.name {
+											a1 = true
+										}
+										if name == k2.name {
+											a2 = true
+										}
+										var nb uint8
+										if a1 {
+											nb |= 1
+										}
+										if a2 {
+											nb |= 2
+										}
+										nx |= 1 << nb
+									}
+									o = nx
+								}
+								if o != st[b] {
+									st[b] = o
+									changed = true
+								}
+							}
+						}
+						var atEnd uint8
+						for b := range body {
+							for _, sc := range b.Succs {
+								if sc == h || !body[sc] {
+									atEnd |= st[b]
+								}
+							}
+						}
+						pkey := fmt.Sprintf("ANN/A5:%s:loop%d:%s~%s", f.Name(), li+1, k1.name, k2.name)
+						if atEnd&(1<<1|1<<2) != 0 && !independentLists[k1.name+"~"+k2.name] {
+							obs = append(obs, Ob{Key: pkey, Site: c.Pos(h.Instrs[0].Pos()), Verdict: VIOLATION,
+								Note: fmt.Sprintf("%s and %s of the same state are both appended on some paths of the loop, but not on the same ones: a path appends one without the other and the index pairing shifts from there on", k1.name, k2.name)})
+						} else {
+							obs = append(obs, Ob{Key: pkey, Site: c.Pos(h.Instrs[0].Pos()), Verdict: OK, Note: "appended on the same paths"})
+						}
+					}
 				}
 				// exits taken before ANY list is appended do not desynchronise: recompute "any appended" must
 				anyMust := false
